@@ -278,6 +278,11 @@ func c08(c *Ctx) {
 		{GP("(litefs.Leaser.ClusterID(p0.Leaser, p1)#1 == nil)", true)},
 		{GP("(\"\" == "+lc+")", true), eqC, GP("(\"\" == "+sc+")", true)},
 	}, 2, "a lease is acquired (or taken over) only when the leaser's cluster id could be read and is empty or equal to the node's", "no node becomes primary for a cluster whose cluster ID differs from its own stored ID")
+	c.GuardedPaths("cluster/primary-same-cluster", mp, install, [][]*Guard{
+		{GP("(litefs.Leaser.ClusterID(p0.Leaser, p1)#1 == nil)", true)},
+		{GP("(\"\" == "+lc+")", true), eqC},
+	}, 1, "after the lease was acquired the node installs it (becomes primary) only when the leaser's cluster id, read again, is still empty or equals the node's own",
+		"F59: the id is compared before the lease is attempted; another cluster's primary can initialise it and go away in between, and the node was primary for a cluster whose id differs from its stored one")
 	{
 		// with a non-empty leaser id and an empty local id no lease is attempted at all
 		fn := c.F(ml)
